@@ -1,18 +1,35 @@
-(* Exact rational linear algebra for the executable instance of the kernel's LAPACK oracles:
-   Gauss-Jordan inverse, pivots (their product is the determinant up to sign), linear solve.
-   Every use is certified case by case by the harness-visible checks X * inv X = I (Model/KernelRun.v). *)
+(* Exact rational linear algebra for the executable instance of the kernel's LAPACK oracles and for the
+   executable specification: Gauss-Jordan inverse, pivots (their product is the determinant up to
+   sign), linear solve.  Carrier: Bignums' bigQ (machine-word limbs; two orders of magnitude faster
+   under vm_compute than Q on the thousand-bit numbers that appear).  Every inverse used by a
+   correspondence check is certified there by X * inv X = I exactly (is_inverse). *)
 From Coq Require Import QArith ZArith List Bool Arith.
+From Bignums Require Import BigQ.
 Import ListNotations.
 
-Definition qrow := list Q.
+Definition bq := bigQ.
+Definition b0 : bq := BigQ.zero.
+Definition b1 : bq := BigQ.one.
+Definition badd (x y : bq) : bq := BigQ.add_norm x y.
+Definition bsub (x y : bq) : bq := BigQ.sub_norm x y.
+Definition bmul (x y : bq) : bq := BigQ.mul_norm x y.
+Definition bdiv (x y : bq) : bq := BigQ.div_norm x y.
+Definition bopp (x : bq) : bq := BigQ.opp x.
+Definition beq (x y : bq) : bool := BigQ.eq_bool x y.
+Definition bleb (x y : bq) : bool := match BigQ.compare x y with Gt => false | _ => true end.
+Definition babs (x : bq) : bq := if bleb b0 x then x else bopp x.
+Definition bofQ (q : Q) : bq := BigQ.red (BigQ.of_Q q).
+Definition btoQ (x : bq) : Q := Qred (BigQ.to_Q x).
+
+Definition qrow := list bq.
 Definition qmat := list qrow.
 
-Definition qnz (q : Q) : bool := negb (Qeq_bool q 0).
+Definition qnz (q : bq) : bool := negb (beq q b0).
 
 Fixpoint find_pivot_from (i k : nat) (rows : qmat) : option nat :=
   match rows with
   | [] => None
-  | r :: rest => if qnz (nth k r 0) then Some i else find_pivot_from (S i) k rest
+  | r :: rest => if qnz (nth k r b0) then Some i else find_pivot_from (S i) k rest
   end.
 Definition find_pivot (k : nat) (m : qmat) : option nat := find_pivot_from k k (skipn k m).
 
@@ -21,21 +38,21 @@ Definition set_row (i : nat) (r : qrow) (m : qmat) : qmat :=
 Definition swap_rows (i j : nat) (m : qmat) : qmat :=
   let ri := nth i m [] in let rj := nth j m [] in set_row j ri (set_row i rj m).
 
-Definition row_sub (r p : qrow) (f : Q) : qrow := map (fun xy => Qred (fst xy - f * snd xy)) (combine r p).
+Definition row_sub (r p : qrow) (f : bq) : qrow := map (fun xy => bsub (fst xy) (bmul f (snd xy))) (combine r p).
 
 (* one elimination step on column k; returns the new matrix and the pivot *)
-Definition gj_step (k : nat) (m : qmat) : option (qmat * Q) :=
+Definition gj_step (k : nat) (m : qmat) : option (qmat * bq) :=
   match find_pivot k m with
   | None => None
   | Some p =>
       let m1 := swap_rows k p m in
       let prow := nth k m1 [] in
-      let pv := nth k prow 0 in
-      let prow' := map (fun x => Qred (x / pv)) prow in
-      Some (map (fun ir => if Nat.eqb (fst ir) k then prow' else row_sub (snd ir) prow' (nth k (snd ir) 0))
+      let pv := nth k prow b0 in
+      let prow' := map (fun x => bdiv x pv) prow in
+      Some (map (fun ir => if Nat.eqb (fst ir) k then prow' else row_sub (snd ir) prow' (nth k (snd ir) b0))
                 (combine (seq 0 (length m1)) m1), pv)
   end.
-Fixpoint gj (fuel k : nat) (m : qmat) (pivots : list Q) : option (qmat * list Q) :=
+Fixpoint gj (fuel k : nat) (m : qmat) (pivots : list bq) : option (qmat * list bq) :=
   match fuel with
   | O => Some (m, rev pivots)
   | S f => match gj_step k m with
@@ -44,7 +61,7 @@ Fixpoint gj (fuel k : nat) (m : qmat) (pivots : list Q) : option (qmat * list Q)
            end
   end.
 
-Definition identity (n : nat) : qmat := map (fun i => map (fun j => if Nat.eqb i j then 1 else 0) (seq 0 n)) (seq 0 n).
+Definition identity (n : nat) : qmat := map (fun i => map (fun j => if Nat.eqb i j then b1 else b0) (seq 0 n)) (seq 0 n).
 Definition augment (a b : qmat) : qmat := map (fun rs => fst rs ++ snd rs) (combine a b).
 
 Definition qinv (n : nat) (a : qmat) : option qmat :=
@@ -52,20 +69,25 @@ Definition qinv (n : nat) (a : qmat) : option qmat :=
   | None => None
   | Some (m, _) => Some (map (skipn n) m)
   end.
-Definition qpivots (n : nat) (a : qmat) : option (list Q) :=
+Definition qpivots (n : nat) (a : qmat) : option (list bq) :=
   match gj n 0 a [] with None => None | Some (_, ps) => Some ps end.
-Definition qsolve (n : nat) (a : qmat) (b : list Q) : option (list Q) :=
+Definition qsolve (n : nat) (a : qmat) (b : list bq) : option (list bq) :=
   match gj n 0 (augment a (map (fun x => [x]) b)) [] with
   | None => None
-  | Some (m, _) => Some (map (fun r => nth n r 0) m)
+  | Some (m, _) => Some (map (fun r => nth n r b0) m)
   end.
 
+Definition dotq (a b : list bq) : bq := fold_right (fun xy acc => badd acc (bmul (fst xy) (snd xy))) b0 (combine a b).
+Definition qcol (j : nat) (m : qmat) : list bq := map (fun r => nth j r b0) m.
 Definition qmul (n : nat) (a b : qmat) : qmat :=
-  map (fun i => map (fun j => fold_right (fun k acc => Qred (acc + nth k (nth i a []) 0 * nth j (nth k b []) 0)) 0 (seq 0 n)) (seq 0 n)) (seq 0 n).
+  map (fun i => map (fun j => dotq (nth i a []) (qcol j b)) (seq 0 n)) (seq 0 n).
+Definition qrow_eqb (u v : qrow) : bool :=
+  (fix eqr (u v : qrow) := match u, v with [], [] => true | p :: u', q :: v' => beq p q && eqr u' v' | _, _ => false end) u v.
 Definition qmat_eqb (a b : qmat) : bool :=
   (fix eqm (x y : qmat) := match x, y with
     | [], [] => true
-    | r :: x', s :: y' => (fix eqr (u v : qrow) := match u, v with [], [] => true | p :: u', q :: v' => Qeq_bool p q && eqr u' v' | _, _ => false end) r s && eqm x' y'
+    | r :: x', s :: y' => qrow_eqb r s && eqm x' y'
     | _, _ => false end) a b.
 (* the certificate: a * x = I exactly *)
 Definition is_inverse (n : nat) (a x : qmat) : bool := qmat_eqb (qmul n a x) (identity n).
+Definition qprod (l : list bq) : bq := fold_right bmul b1 l.
